@@ -4,7 +4,7 @@ V=${VERIF_HOME:-/verif}
 OUT=$(cd "$(dirname "$4")" && pwd)/$(basename "$4")
 D=$(mktemp -d $V/run/qgen.XXXX)
 printf 'SPECIFICATION Spec\nCONSTANTS\n  Clients = {"c1", "c2", "c3"}\n  Q = 1\n  C = 1\n  S = 1\n  PoolCap = 1\n  SB = 1\n  CB = 1\n  EmitAt = %s\n  EnqueueLocked = FALSE\nINVARIANTS\n  Emit\n' "$2" > $D/gen.cfg
-cd $V/spec && timeout 600 java -Xmx4g -Xss512m -cp /opt/veriftools/tla/tla2tools.jar:/opt/veriftools/tla/CommunityModules-deps.jar tlc2.TLC -noGenerateSpecTE -deadlock -workers 1 -simulate num=$1 -depth $2 -seed $3 -metadir $D/md -config $D/gen.cfg Queues.tla > $D/out.txt 2>&1
+cd $V/spec && timeout 600 java -Xmx4g -Xss512m -Djava.io.tmpdir=$D -cp /opt/veriftools/tla/tla2tools.jar:/opt/veriftools/tla/CommunityModules-deps.jar tlc2.TLC -noGenerateSpecTE -deadlock -workers 1 -simulate num=$1 -depth $2 -seed $3 -metadir $D/md -config $D/gen.cfg Queues.tla > $D/out.txt 2>&1
 grep QGEN $D/out.txt | python3 -c "
 import sys,re,json
 seen=set()
